@@ -11,7 +11,8 @@ UNITS_LOCAL = {"C12": [
          assumptions=["sequentially consistent interleavings only", "g++ -fsanitize=thread instruments every plain access of the header-only containers",
                       "executions needing more deviations than the completed bound are not covered"]),
     Unit("bursts", ["harness/C12_bursts.cpp"], cxx="clang++", flags=ASAN, env=ASAN_ENV, engine="seqmc",
-         rule="one thread alternately producing and consuming: every burst length 0..600 and the boundaries 1023..1025, 32767/8, 65535..65537, 131072, 196608 of assignments "
+         rule="one thread alternately producing and consuming: every history of <= 8 (thorough 9) operations over {assign 0/1/2, update()} "
+              "with repeating values (int and heap-owning payloads); every burst length 0..600 and the boundaries 1023..1025, 32767/8, 65535..65537, 131072, 196608 of assignments "
               "between two update() calls (int and heap-owning payloads, several rounds), and every batch size of the same set between two consume() calls",
          assumptions=["single-threaded histories; the interleavings are decided by the transactional unit"]),
 ]}
